@@ -281,7 +281,8 @@ async fn run_venue(a: &Args, m: &mut mon::Mon) {
             venue::SOLEND_FAULT.store(0, std::sync::atomic::Ordering::Relaxed);
             w.venue_autorefresh = true;
             w.refresh_oracles();
-            match r.gen_range(0..4) {
+            let branch = if matches!(a.prop.as_str(), "C04" | "C05") { 3 } else { r.gen_range(0..4) };
+            match branch {
                 0 => {
                     // integration-cap saturation: one account enters every venue bank in turn
                     let acct = r.gen_range(0..w.accts.len());
@@ -377,7 +378,8 @@ async fn run_venue(a: &Args, m: &mut mon::Mon) {
                         m.r.count(if o.ok() { "venue.stale_reserve_withdraw_accepted" } else { "venue.stale_reserve_withdraw_rejected" });
                         w.venue_autorefresh = true;
                         w.refresh_oracles();
-                        if r.gen_bool(0.5) {
+                        if r.gen_bool(0.5) || a.prop == "C05" {
+                            m.r.count("venue.liquidations_of_venue_collateral_attempted");
                             scen::liquidation(&mut w, m, &mut r, &lev, lq).await;
                         }
                     }
